@@ -76,6 +76,13 @@ var propSpecs = map[string]*PropSpec{
 		TrustedBase: []string{"the revocation table behind resources.ResHandle behaves as a keyed row set (anchored assumptions at Insert/Delete/Read say what the store did; C30)", "AES-GCM authenticity: 'issued by this server with its current key and not altered' is decryptsUnder (C27)", "removal of cache entries by expiry, eviction or purge preserves both invariants (they constrain entries that are present); caches.* contracts from C28", "configuration-time functions tokens.SetDatabasePath/Close are outside the histories considered", "remote-authority tokens (ego.server.authority set) are the authority's to expire and revoke"},
 		Extra:       c21Extra,
 	},
+	"C23": {
+		Patterns:    []string{"./..."},
+		Level:       "proof",
+		Explanation: "consumeCode / consumeRefreshToken report success only when their own caches.Delete of the very key they looked up returned true, verified under interference (the cache may change arbitrarily between the lookup and the delete): Delete removes the entry and reports whether it was there in one critical section (C28), so of any number of concurrent presentations exactly one succeeds; verifyPKCE returns nil exactly when there is no challenge or the method is S256 and the S256 transform of the verifier equals the challenge; the token endpoint mints access, ID and refresh tokens for a code only after consuming that code and verifying PKCE with the verifier presented, for the client and redirect URI the code was issued to (a public client's code must carry a challenge), and for a refresh token only after consuming it",
+		TrustedBase: []string{"caches.Delete is atomic under the cache lock (C28 contracts and lock discipline)", "challengeOf(v) is BASE64URL(SHA256(v)): crypto/sha256 and encoding/base64 (asserted to be applied to the verifier)", "codes and refresh tokens are freshly generated random keys (crypto/rand)"},
+		Extra:       c23Extra,
+	},
 	"C27": {
 		Patterns: []string{"./..."},
 		Level:    "proof",
